@@ -9,7 +9,7 @@ RULE = ("cases = (bit stride b, length, input dtype, content pattern), enumerate
         "non-trivial = the packed array spans more than one 64-bit register or ends inside a register")
 ASSUMPTIONS = ["oracle: Python integers (sum(vals[i+j] << (b*j)))", "values fit in b bits (the statement's precondition)"]
 REQUIRED_FEATURES = ["same_object_sequence", "boundary_bits", "dtype_narrower_than_stride", "length_not_multiple_of_register", "window_straddles_registers", "multi_register", "exhaustive_contents", "empty_array",
-                     "position_list_with_repeats", "stride_64", "empty_position_list"]
+                     "position_list_with_repeats", "stride_64", "empty_position_list", "input_not_contiguous"]
 BOUNDS = {"quick": "b in {1,2,4,8,16,32,64} x lengths {0..5, p-1,p,p+1, 2p-1,2p,2p+1, 3p+2} (p=64/b) x every integer dtype that holds 2**b-1 x "
                    "{zeros, max, alternating, progression}; ALL contents for b=1 (L<=10) and b=2 (L<=5); every position, 6 position-list families, every window 1..p",
           "thorough": "every length 0..3p+2; all contents b=1 L<=12, b=2 L<=6, b=4 L<=3"}
@@ -128,6 +128,14 @@ def check(case, acc):
         return
     if attempt(lambda: arr.tolist()) != vals:
         acc.fail("input-modified", vals, arr.tolist())
+    if n and n <= 400:
+        # the same values as views of a larger buffer (every other cell; reversed storage)
+        acc.feature("input_not_contiguous")
+        for lname, view in (("strided", lambda: np.repeat(arr, 2)[::2]), ("reversed", lambda: arr[::-1].copy()[::-1])):
+            o2 = attempt(lambda: [int(x) for x in BitArray.pack(view(), b).unpack()])
+            acc.trans()
+            if o2 != vals:
+                acc.fail(f"pack({lname} view)-unpack-differs", vals, o2)
     for i in (range(n) if n <= 400 else list(range(60)) + list(range(n - 60, n))):
         o = attempt(lambda: int(pk()[i]))
         acc.trans()
